@@ -186,6 +186,34 @@ impl Helpers {
         std::thread::sleep(std::time::Duration::from_millis(30));
         Ok(Helpers { procs, morphed: Default::default() })
     }
+    /// one more helper whose executable lives under a directory whose name is not valid UTF-8 (bytes 0xFF 0xFE): returns its
+    /// index. Its path is written with U+E0FF / U+E0FE standing for those bytes (`gen::exe_os`).
+    pub fn spawn_raw_path(&mut self) -> Result<usize, String> {
+        use std::os::unix::ffi::OsStringExt;
+        let mut src = std::env::current_exe().map_err(|e| e.to_string())?;
+        src.set_file_name("vhelper");
+        let mut dir: Vec<u8> = format!("{}/bin/d", RUN_ROOT).into_bytes();
+        dir.extend_from_slice(&[0xFF, 0xFE]);
+        let dir = std::path::PathBuf::from(std::ffi::OsString::from_vec(dir));
+        std::fs::create_dir_all(&dir).map_err(|e| format!("mkdir {:?}: {}", dir, e))?;
+        let exe = dir.join("tool");
+        if !exe.exists() {
+            std::fs::copy(&src, &exe).map_err(|e| format!("copy {:?} -> {:?}: {}", src, exe, e))?;
+        }
+        let mut cmd = Command::new(&exe);
+        cmd.arg("3800").stdin(Stdio::null()).stdout(Stdio::null()).stderr(Stdio::null());
+        unsafe {
+            cmd.pre_exec(|| {
+                libc::prctl(libc::PR_SET_PDEATHSIG, libc::SIGKILL);
+                Ok(())
+            });
+        }
+        let child = cmd.spawn().map_err(|e| format!("spawn {:?}: {}", exe, e))?;
+        let shown = format!("{}/bin/d{}{}/tool", RUN_ROOT, '\u{E0FF}', '\u{E0FE}');
+        self.procs.push(("tool".to_string(), shown.clone(), format!("{} 3800", shown), child));
+        std::thread::sleep(std::time::Duration::from_millis(30));
+        Ok(self.procs.len() - 1)
+    }
     pub fn pid(&self, i: usize) -> u32 {
         self.procs[i].3.id()
     }
